@@ -198,7 +198,7 @@ fn run_cli(dir: &PathBuf, case: &Case, inputs: &[PathBuf], cfg: Option<Cfg>, idx
 pub fn check(case: &Case, rec: &mut Rec) -> CheckResult {
     static COUNTER: std::sync::atomic::AtomicU64 = std::sync::atomic::AtomicU64::new(0);
     let id = COUNTER.fetch_add(1, std::sync::atomic::Ordering::SeqCst);
-    let dir = PathBuf::from(format!("{}/work/c19/{}-{}", VERIF_DIR, std::process::id(), id));
+    let dir = PathBuf::from(format!("{}/work/c19/{}-{}", crate::engine::out_dir(), std::process::id(), id));
     std::fs::create_dir_all(&dir).map_err(|e| Fail::new("harness-io", e.to_string()))?;
     let _guard = Dir(dir.clone());
     let mut inputs = vec![];
